@@ -350,6 +350,11 @@ def coq_makefile():
     """(Re)generate coq/_CoqProject (every .v under coq/) and coq/Makefile."""
     mk = COQ + "/Makefile"
     cp = COQ + "/_CoqProject"
+    # extraction targets write into <Dir>/extracted/, which is not tracked by git
+    for root, dirs, files in os.walk(COQ):
+        if "Extract.v" in files:
+            os.makedirs(os.path.join(root, "extracted"), exist_ok=True)
+    os.makedirs(os.path.join(COQ, "Gen"), exist_ok=True)
     changed = write_if_changed(cp, coq_project_text())
     if changed or not os.path.exists(mk):
         run(["coq_makefile", "-f", "_CoqProject", "-o", "Makefile"], cwd=COQ, check=True)
